@@ -14,7 +14,6 @@ import hier_world as hw
 import hier_gen, hier_oracles, ir_run, coq_eval
 from ir_world import World
 
-UNREF_SIG = 'C11|hrefs_of_item|instance-without-reference|empty'
 KINDS = ['inst', 'port', 'pin', 'cable', 'wire']
 SELS = ['ALL', 'INSIDE', 'OUTSIDE', 'BOTH']
 COQ_FILES = ['Hier/Paths', 'Hier/Enum', 'Hier/Trace', 'Hier/Conn', 'Proofs/HierValid', 'Proofs/HierEnum',
@@ -151,7 +150,14 @@ def run_case_c11(ops, edit_ops, rng, stats, m, light=False):
         wf = m.ask(['wf %d' % n])[0]
         stats['wf:' + wf] += 1
         E = hier_oracles.Elab(w, nl)
+        D = hier_oracles.Design(w)   # all netlists of the world: the occurrence queries are not tied to one
         stats['paths'].append(len(E.paths))
+        stats['rooted-netlists:%d' % len(D.elabs)] += 1
+        for o in w.objs:
+            if isinstance(o, sdn.ir.Instance) and o.reference is None and D.occurrences(o):
+                stats['shape:instance-without-reference-occurs'] += 1
+            if isinstance(o, sdn.ir.Definition) and o.library is None and D.occurrences(o):
+                stats['shape:definition-outside-library-occurs'] += 1
         keep = {}     # tuple -> HRef, kept alive for the identity checks
         # -- 0. on every other netlist the very first queries are element-rooted ("occurrences of a given
         #       element"), so that the references they create are the first ones of their paths: every reference
@@ -230,12 +236,9 @@ def run_case_c11(ops, edit_ops, rng, stats, m, light=False):
             raw = [hw.tup(w, h) for h in refs]
             if len(raw) != len(set(raw)):
                 P.add('oracle', 'C11|hrefs_of_item|duplicate-reference', item=t)
-            exp = E.occurrences(o) if E.rooted else None
-            if isinstance(o, sdn.ir.Instance) and o.reference is None and exp and not raw:
-                # open finding C11-instance-without-reference (precise signature; anything else
-                # about such an instance still goes through the generic comparison)
-                P.add('oracle', UNREF_SIG, what='get_all_hrefs_of_item(%s)' % t, expected=exp[:3])
-                exp = None
+            # all and only the valid references ending at the element, whichever netlist they are rooted in and
+            # whatever the element's instance references (nothing; a cell that is in no library)
+            exp = D.occurrences(o)
             cmp3(P, 'get_all_hrefs_of_item(%s)' % t, 'C11|hrefs_of_item|%s' % type(o).__name__, sorted(raw),
                  hw.parse_hrefs(a), exp)
             for tt, h in zip(raw, refs):
@@ -250,6 +253,21 @@ def run_case_c11(ops, edit_ops, rng, stats, m, light=False):
                         break
                     anc = anc.parent
             stats['occ:%s' % type(o).__name__] += len(raw)
+        # -- 3b. get_all_hrefs_of_instances(instances, netlist): some sets of instances, every netlist that has a
+        #        top instance: the instance paths below THAT top instance ending in one of them
+        all_insts = [(i, o) for i, o in enumerate(w.objs) if isinstance(o, sdn.ir.Instance)]
+        sets = [sample(rng, all_insts, rng.randint(1, 4)) for _ in range(3 if light else 8)] if all_insts else []
+        qs = [(ni, e, chosen) for ni, e in D.by_netlist for chosen in sets]
+        ans = m.ask(['hrefsin %d %s' % (ni, hw.tok(tuple(i for i, _ in chosen))) for ni, e, chosen in qs])
+        for (ni, e, chosen), a in zip(qs, ans):
+            refs = list(HRef.get_all_hrefs_of_instances(set(o for _, o in chosen), w.objs[ni]))
+            raw = [hw.tup(w, h) for h in refs]
+            if len(raw) != len(set(raw)):
+                P.add('oracle', 'C11|hrefs_of_instances-in-netlist|duplicate-reference', netlist=ni)
+            ids = set(i for i, _ in chosen)
+            cmp3(P, 'get_all_hrefs_of_instances(%s, netlist #%d)' % (sorted(ids), ni), 'C11|hrefs_of_instances-in-netlist',
+                 sorted(raw), hw.parse_hrefs(a), sorted(p for p in e.paths if p[-1] in ids))
+            stats['occ:in-netlist'] += len(raw)
         # -- 4. flyweight identity (implementation only): a second query returns the same objects
         for k in KINDS:
             for h in hw.ENUM[k](nl, recursive=True):
@@ -275,18 +293,15 @@ def run_case_c11(ops, edit_ops, rng, stats, m, light=False):
                 roots.append((i, o))
         for i, o in sample(rng, roots, 6 if light else 14):
             if isinstance(o, sdn.ir.Library):
-                insts = [p for d in o.definitions for p in E.occurrences(d)]
+                insts = [p for d in o.definitions for p in D.occurrences(d)]
             else:
-                insts = E.occurrences(o)
+                insts = D.occurrences(o)
             for k in KINDS:
                 for r in (False, True):
                     impl, _ = hw.impl_enum(w, k, o, r)
-                    exp = sorted(set(insts)) if k == 'inst' else E.contents_from(k, insts, r)
-                    if k == 'inst' and isinstance(o, sdn.ir.Instance) and o.reference is None and exp and not impl:
-                        P.add('oracle', UNREF_SIG, what='get_hinstances(Instance #%d)' % i, expected=exp[:3])
-                        continue
+                    exp = sorted(set(insts)) if k == 'inst' else D.contents_from(k, insts, r)
                     cmp3(P, 'get_h%s(%s #%d, recursive=%s)' % (k, type(o).__name__, i, r),
-                         'C11|root|%s|%s' % (type(o).__name__, k), impl, None, exp if E.rooted else None)
+                         'C11|root|%s|%s' % (type(o).__name__, k), impl, None, exp)
                     stats['root:%s' % type(o).__name__] += 1
         hinsts = sample(rng, E.paths, 5 if light else 12)
         qs = [(k, r, t) for t in hinsts for k in KINDS for r in (0, 1)]
@@ -302,11 +317,11 @@ def run_case_c11(ops, edit_ops, rng, stats, m, light=False):
                 o = w.objs[t[-1]]
                 impl, _ = hw.impl_enum(w, k, o, False)
                 cmp3(P, 'get_h%s(%s #%d)' % (k, type(o).__name__, t[-1]), 'C11|root|item|%s' % k, impl, None,
-                     E.occurrences(o) if E.rooted else None)
+                     D.occurrences(o))
                 impl, _ = hw.impl_enum(w, 'inst', o, False)
                 d = o.definition if k in ('port', 'cable') else (o.port.definition if k == 'pin' else o.cable.definition)
                 cmp3(P, 'get_hinstances(%s #%d)' % (type(o).__name__, t[-1]), 'C11|root|item|inst', impl, None,
-                     E.occurrences(d) if E.rooted else None)
+                     D.occurrences(d))
                 impl, _ = hw.impl_enum(w, 'inst', keep[t], False)
                 cmp3(P, 'get_hinstances(href %s)' % (t,), 'C11|root|HRef-item|inst', impl, None,
                      [t[:-1] if k in ('port', 'cable') else t[:-2]] if E.rooted else None)
@@ -352,6 +367,7 @@ def run_case_c11(ops, edit_ops, rng, stats, m, light=False):
                         if badrefs:
                             P.add('oracle', 'C11|stale-root|%s-returns-invalid-reference' % qname, href=t, edits=[' '.join(o) for o in edit_ops])
                             break
+            D2 = hier_oracles.Design(w)
             if E2 is not None:
                 ans = m.ask(['enum %s %d 1' % (k, n) for k in KINDS])
                 for k, a in zip(KINDS, ans):
@@ -371,10 +387,7 @@ def run_case_c11(ops, edit_ops, rng, stats, m, light=False):
                         raw = [hw.tup(w, h) for h in HRef.get_all_hrefs_of_item(o)]
                     except Exception:  # noqa  (an element the edits detached)
                         continue
-                    exp = E2.occurrences(o) if E2.rooted else None
-                    if isinstance(o, sdn.ir.Instance) and o.reference is None and exp and not raw:
-                        P.add('oracle', UNREF_SIG, what='get_all_hrefs_of_item(%s)' % t, expected=exp[:3])
-                        exp = None
+                    exp = D2.occurrences(o)
                     cmp3(P, 'get_all_hrefs_of_item(%s) after edits' % t, 'C11|hrefs_of_item-after-edit|%s' % type(o).__name__,
                          sorted(raw), hw.parse_hrefs(a), exp)
                     stats['after-edit:occ'] += 1
